@@ -293,6 +293,8 @@ fn vocabulary() -> Vec<String> {
     for w in [
         // numbers
         "0", "7", "8", "255", "256", "007", "-0", "-2", "+1", "1000",
+        // numbers beyond u32 / u64 (an accumulator that wraps or overflows)
+        "4294967296", "4294967551", "99999999999", "18446744073709551616",
         // '#'-words
         "#000", "#fff", "#a1b2c3", "#ABC", "#12", "#1234", "#1234567", "#", "#ggg", "#+f+f+f", "#a\u{e9}", "#12345g",
         // near misses
@@ -391,6 +393,20 @@ fn sweep_indexed(total: u64, system: &str, col: &Collector, track: bool, make: i
 fn main_check(ctx: &Ctx) -> Outcome {
     quiet_panics();
     let mut out = Outcome::default();
+    // the functions under test must not consult the environment: a few representative inputs under a cleared and two
+    // hostile settings of the colour-related variables (before any worker thread exists)
+    fn env_digest() -> Vec<String> {
+        ["", "bold red", "red blue ul", "#abc #a1b2c3 nobold", "255 0 dim italic", "x", "red blue green"].iter().map(|t| format!("{:?}", anstyle_git::parse(t))).collect::<Vec<String>>()
+    }
+    if let Err(m) = vexplore::util::env_independence(env_digest) {
+        out.findings.push(Finding {
+            system: "anstyle_git::parse".into(),
+            clause: "environment-dependence".into(),
+            case: vec!["representative inputs".into()],
+            message: m.chars().take(900).collect(),
+            replay: serde_json::json!({"kind":"env"}),
+        });
+    }
     let quick = ctx.quick();
     let col = Collector::new(3);
     let mut acc = Acc::default();
@@ -730,6 +746,7 @@ fn replay(v: &serde_json::Value) -> Result<(), String> {
             };
             roundtrip_one(&gs, v["variant"].as_u64().unwrap_or(0) as u8).map_err(|(c, m)| format!("{c}: {m}"))
         }
+        "env" => Err("environment-dependence findings are replayed by re-running the check".into()),
         k => Err(format!("unknown replay kind {k}")),
     }
 }
